@@ -35,6 +35,7 @@ if not skip:
     if not ok: print(json.dumps(meta, indent=1)); sys.exit(2)
 assert sh('git -C /repo status --porcelain').stdout.strip() == '', '/repo not clean'
 r = sh('git -C /repo apply %s' % patch); assert r.returncode == 0, r.stderr
+_ev = {p: open(os.path.join(ROOT, 'evidence', p + '.json')).read() for p in props if os.path.exists(os.path.join(ROOT, 'evidence', p + '.json'))}
 try:
     for p in props:
         t = time.time()
@@ -44,6 +45,8 @@ try:
         print(p, 'exit', r.returncode); print('\n'.join('   ' + l[:200] for l in lines[:12]))
 finally:
     sh('git -C /repo checkout -- .')
+    for p, txt in _ev.items(): open(os.path.join(ROOT, 'evidence', p + '.json'), 'w').write(txt)      # evidence files are only ever committed from runs on the unchanged tree
+    sh('rm -f %s/replays/*.json' % ROOT)
 d = os.path.join(ROOT, 'seeded', sid); os.makedirs(d, exist_ok=True)
 shutil.copy(patch, os.path.join(d, 'patch.diff')); shutil.copy(demo, os.path.join(d, 'demo.py'))
 if os.path.exists(os.path.join(src, 'notes.md')): meta['needs_to_manifest'] = open(os.path.join(src, 'notes.md')).read()[:1500]
